@@ -27,15 +27,15 @@ type w2mCfg struct {
 }
 
 type w2mKey struct {
-	Key    string
-	Data   string
-	Off    uint64
-	Score  int64
-	HasD   bool
-	DLo    int64 // the TTL of this incarnation ends at a time in [DLo, DHi]
-	DHi    int64
-	Ver    uint64
-	VEp    string
+	Key   string
+	Data  string
+	Off   uint64
+	Score int64
+	HasD  bool
+	DLo   int64 // the TTL of this incarnation ends at a time in [DLo, DHi]
+	DHi   int64
+	Ver   uint64
+	VEp   string
 }
 
 type w2mEnt struct {
